@@ -298,9 +298,9 @@ def check_combinatorial_spectrum(idx: Index, rep: Report, tier: str):
     from ..rules.circuitsem import make_folder
     rule = "K9.combinatorial-spectrum"
     f = idx.function(f"{COMBI}::combinatorial")
-    cases = [(2, (1, 1), 1), (2, 2, 2), (2, (2, 1), 3), (3, (1, 1), 4), (2, (1, 0), 5)]
+    cases = [(2, (1, 1), 1), (2, 2, 2), (2, (2, 1), 3), (3, (1, 1), 4), (2, (1, 0), 5), (3, (2, 1), 6)]     # two like-spin electrons: the hopping signs matter
     if tier == "thorough":
-        cases += [(3, (2, 1), 6), (3, (1, 2), 7), (3, 2, 8)]
+        cases += [(3, (1, 2), 7), (3, 2, 8), (3, (2, 2), 9)]
     n = 0
     for n_modes, n_el, seed in cases:
         terms = _test_hamiltonian(n_modes, seed)
